@@ -17,6 +17,9 @@ ASSUMPTIONS = [
 ]
 
 
+WITNESSES = {"C11-string-reference-memoised-by-text": c11_concrete.string_reference_memo_witness}
+
+
 def searcher(ob):
     fails, n, d = c11_concrete.search(stop_at=1, max_len=2)
     if fails:
@@ -46,5 +49,7 @@ def main(tier, seed):
                             "rule": "6 base types x chains over {NewType, TypeAliasType, Final} x 5 positions x 3 inputs, compared with the plain type (unmarshal and marshal)"})
         for f in fails:
             chk.violation("bounded-cross-check", {"found": True, "kind": "c11-case", "case": f}, True)
+    chk.known_witness("C11-string-reference-memoised-by-text", c11_concrete.string_reference_memo_witness,
+                      "the same bare string reference issued from two modules that each define the named class")
     chk.resolve_failures(searcher)
     return chk.finish()
